@@ -51,8 +51,16 @@ func buildZip(entries []zipEntry, desc bool, deflate bool, rng *rand.Rand, first
 		var comp []byte
 		if deflate && e.csize >= 5 && !(i == 0 && firstBody != nil) {
 			method = zip.Deflate
-			body = make([]byte, e.csize-5)
-			rng.Read(body)
+			// either a highly compressible body (uncompressed size far larger than csize) or an
+			// incompressible one (stored deflate block: len+5), both with compressed size == csize
+			body = nil
+			if rng.Intn(2) == 0 && !desc { // with a descriptor archive/zip compresses by itself (other level): incompressible only
+				body = compressibleBody(e.csize)
+			}
+			if body == nil {
+				body = make([]byte, e.csize-5)
+				rng.Read(body)
+			}
 			var cb bytes.Buffer
 			fw := sharedFlate(&cb)
 			fw.Write(body)
@@ -101,6 +109,37 @@ func buildZip(entries []zipEntry, desc bool, deflate bool, rng *rand.Rand, first
 		return nil, err
 	}
 	return buf.Bytes(), nil
+}
+
+var compressibleCache = map[int][]byte{}
+
+// compressibleBody returns repetitive text whose deflated size is exactly target (nil if no
+// length up to 64 KiB hits it).
+func compressibleBody(target int) []byte {
+	if b, ok := compressibleCache[target]; ok {
+		return b
+	}
+	var found []byte
+	for _, pat := range []string{"<w:p><w:r><w:t>lorem ipsum</w:t></w:r></w:p>\n", "ab", "0123456789"} {
+		for l := 16; l <= 65536 && found == nil; l += 1 + l/64 {
+			body := bytes.Repeat([]byte(pat), l/len(pat)+1)[:l]
+			var cb bytes.Buffer
+			fw := sharedFlate(&cb)
+			fw.Write(body)
+			fw.Close()
+			if cb.Len() == target && l > 4*target {
+				found = body
+			}
+			if cb.Len() > target+64 {
+				break
+			}
+		}
+		if found != nil {
+			break
+		}
+	}
+	compressibleCache[target] = found
+	return found
 }
 
 func zipClass(m *mimetype.MIME) string {
